@@ -6,23 +6,36 @@
 (* by the entry (tid, string rva) stored into slot SlotOf(i).              *)
 (* `PlaceByNamedIndex` selects SlotOf: TRUE = number of named threads      *)
 (* before i; FALSE = i itself (position among all threads).                *)
+(* The threads the stream is written for are the LISTED ones: those of the *)
+(* enumeration that were not dropped when the process was suspended (gone, *)
+(* not attachable, no stack pointer).  `CountListed` says where the number *)
+(* of array slots comes from: TRUE = the named threads of that list;       *)
+(* FALSE = the length of the list minus the number of names that could not *)
+(* be read during the enumeration (a count taken before threads dropped).  *)
 (***************************************************************************)
 EXTENDS Naturals, Sequences, FiniteSets, TLC
-CONSTANTS MaxThreads, NameLens, PlaceByNamedIndex
-VARIABLES threads,  \* Seq of [named : BOOLEAN, len : NameLens]  (index = thread-list position, tid = index)
+CONSTANTS MaxThreads, NameLens, PlaceByNamedIndex, CountListed
+VARIABLES enum,     \* Seq of [named : BOOLEAN, len : NameLens, dropped : BOOLEAN]: the enumeration of /proc/<pid>/task
+          threads,  \* the listed threads = enum without the dropped ones;  Seq of [named : BOOLEAN, len : NameLens]  (index = thread-list position, tid = index)
           img,      \* Seq of cells: <<"hdr",n>>, <<"slot",k>> (empty slot), <<"ent",tid,strOff>>, <<"str",tid,len>> (string header), <<"chr",tid>>
           i, arrOff, nNamed, pc, oob
-vars == <<threads, img, i, arrOff, nNamed, pc, oob>>
+vars == <<enum, threads, img, i, arrOff, nNamed, pc, oob>>
 
 NamedSet(ths) == {k \in 1..Len(ths) : ths[k].named}
 (* 0-based array index used for thread i (1-based position in the thread list) *)
 SlotOf(ths, k) == IF PlaceByNamedIndex THEN Cardinality({j \in NamedSet(ths) : j < k}) ELSE k - 1
 
-Init == /\ threads \in UNION {[1..n -> [named : BOOLEAN, len : NameLens]] : n \in 0..MaxThreads}
+RECURSIVE Keep(_)
+Keep(e) == IF e = <<>> THEN <<>> ELSE (IF Head(e).dropped THEN <<>> ELSE <<[named |-> Head(e).named, len |-> Head(e).len]>>) \o Keep(Tail(e))
+Unnamed(e) == Cardinality({k \in 1..Len(e) : ~e[k].named})
+Minus(a, b) == IF a >= b THEN a - b ELSE 0
+SlotCount == IF CountListed THEN Cardinality(NamedSet(threads)) ELSE Minus(Len(threads), Unnamed(enum))
+Init == /\ enum \in UNION {[1..n -> [named : BOOLEAN, len : NameLens, dropped : BOOLEAN]] : n \in 0..MaxThreads}
+        /\ threads = Keep(enum)
         /\ img = <<>> /\ i = 1 /\ arrOff = 0 /\ nNamed = 0 /\ pc = "header" /\ oob = FALSE
 Header == /\ pc = "header"
-          /\ img' = <<<<"hdr", Cardinality(NamedSet(threads))>>>> \o [k \in 1..Cardinality(NamedSet(threads)) |-> <<"slot", k>>]
-          /\ arrOff' = 1 /\ pc' = "place" /\ UNCHANGED <<threads, i, nNamed, oob>>
+          /\ img' = <<<<"hdr", SlotCount>>>> \o [k \in 1..SlotCount |-> <<"slot", k>>]
+          /\ arrOff' = 1 /\ pc' = "place" /\ UNCHANGED <<enum, threads, i, nNamed, oob>>
 (* Buffer::write_at: in place, or extending when the position is the current end; beyond that it panics *)
 WriteAt(s, pos, c) == IF pos <= Len(s) THEN [s EXCEPT ![pos] = c] ELSE IF pos = Len(s) + 1 THEN Append(s, c) ELSE s
 Place == /\ pc = "place" /\ i <= Len(threads)
@@ -34,8 +47,8 @@ Place == /\ pc = "place" /\ i <= Len(threads)
                       /\ img' = WriteAt(withStr, pos, <<"ent", i, strOff>>)
                       /\ nNamed' = nNamed + 1
               ELSE UNCHANGED <<img, nNamed, oob>>
-         /\ i' = i + 1 /\ UNCHANGED <<threads, arrOff, pc>>
-Done == pc = "place" /\ i > Len(threads) /\ pc' = "done" /\ UNCHANGED <<threads, img, i, arrOff, nNamed, oob>>
+         /\ i' = i + 1 /\ UNCHANGED <<enum, threads, arrOff, pc>>
+Done == pc = "place" /\ i > Len(threads) /\ pc' = "done" /\ UNCHANGED <<enum, threads, img, i, arrOff, nNamed, oob>>
 Next == Header \/ Place \/ Done
 Spec == Init /\ [][Next]_vars
 
@@ -43,6 +56,7 @@ Spec == Init /\ [][Next]_vars
 Slots == {arrOff + k : k \in 1..Cardinality(NamedSet(threads))}
 C15 == pc = "done" =>
    /\ ~oob
+   /\ img[1] = <<"hdr", Cardinality(NamedSet(threads))>>                    \* exactly one entry per listed thread whose name could be read
    /\ \A k \in NamedSet(threads) : \E p \in Slots : /\ img[p][1] = "ent" /\ img[p][2] = k
                                                      /\ img[p][3] <= Len(img) /\ img[img[p][3]] = <<"str", k, threads[k].len>>
    /\ \A p \in Slots : img[p][1] = "ent" /\ img[p][2] \in NamedSet(threads)
